@@ -119,3 +119,83 @@ class PassTLS(tunnel.TunnelLayer):
     def on_handshake_error(self, err):
         self.conn.error = err  # as TLSLayer.on_handshake_error does
         yield from super().on_handshake_error(err)
+
+
+# ---------------------------------------------------------------------------------------------
+# HTTP/3 client peer: a plain aioquic H3Connection on a minimal stand-in for the QUIC connection (no mitmproxy code)
+
+class _PeerQuic:
+    def __init__(self, is_client=True):
+        from aioquic.quic.configuration import QuicConfiguration
+
+        self.configuration = QuicConfiguration(is_client=is_client)
+        self._quic_logger = None
+        self._remote_max_datagram_frame_size = 0
+        self._next = [0, 1, 2, 3]
+        self._is_client = is_client
+        self.out = []  # (stream_id, data, end_stream)
+        self.closed = None
+
+    def get_next_available_stream_id(self, is_unidirectional=False):
+        idx = (int(is_unidirectional) << 1) | int(not self._is_client)
+        sid = self._next[idx]
+        self._next[idx] = sid + 4
+        return sid
+
+    def send_stream_data(self, stream_id, data, end_stream=False):
+        self.out.append((stream_id, data, end_stream))
+
+    def close(self, error_code=0, frame_type=None, reason_phrase=""):
+        self.closed = (error_code, reason_phrase)
+
+    def reset_stream(self, stream_id, error_code):
+        self.out.append((stream_id, ("reset", error_code), False))
+
+    def stop_stream(self, stream_id, error_code):
+        pass
+
+
+class H3ClientPeer:
+    """aioquic H3Connection as the remote HTTP/3 client of `mitm_conn`; QUIC stream data is exchanged as
+    QuicStreamDataReceived events / SendQuicStreamData commands."""
+
+    def __init__(self, drv, mitm_conn):
+        from aioquic.h3.connection import H3Connection
+
+        self.drv, self.mitm_conn = drv, mitm_conn
+        self.quic = _PeerQuic(True)
+        self.h3 = H3Connection(self.quic)
+        self.events = []
+        self.cursor = 0
+        self.error = None
+        self.closed_by_mitm = None
+
+    def flush(self):
+        from mitmproxy.proxy.layers.quic import QuicStreamDataReceived
+
+        out, self.quic.out = self.quic.out, []
+        for sid, data, end in out:
+            if isinstance(data, tuple):
+                continue
+            self.drv.feed(QuicStreamDataReceived(self.mitm_conn, sid, data, end))
+
+    def pump(self):
+        from aioquic.quic.events import StreamDataReceived
+        from mitmproxy.proxy.layers.quic import CloseQuicConnection, SendQuicStreamData, ResetQuicStream
+
+        new = []
+        log = self.drv.log
+        while self.cursor < len(log):
+            cmd = log[self.cursor]
+            self.cursor += 1
+            if isinstance(cmd, CloseQuicConnection) and cmd.connection is self.mitm_conn:
+                self.closed_by_mitm = (cmd.error_code, cmd.reason_phrase)
+            elif isinstance(cmd, ResetQuicStream) and cmd.connection is self.mitm_conn:
+                new.append(("reset", cmd.stream_id, cmd.error_code))
+            elif isinstance(cmd, SendQuicStreamData) and cmd.connection is self.mitm_conn and self.error is None:
+                try:
+                    new.extend(self.h3.handle_event(StreamDataReceived(data=cmd.data, end_stream=cmd.end_stream, stream_id=cmd.stream_id)))
+                except Exception as e:
+                    self.error = e
+        self.events.extend(new)
+        return new
